@@ -696,8 +696,10 @@ private:
         }
 
         std::size_t size = static_cast<std::size_t>(len) - static_cast<std::size_t>(1);
-        auto data = source_.read_span(size, text_buffer_);
-        if (JSONCONS_UNLIKELY(data.size() != size))
+        // Read the payload and its terminator in one go: the span may point into the source's buffer, and a
+        // separate read of the terminator could refill that buffer and overwrite the payload.
+        auto data = source_.read_span(size + 1, text_buffer_);
+        if (JSONCONS_UNLIKELY(data.size() != size + 1))
         {
             ec = bson_errc::unexpected_eof;
             more_ = false;
@@ -705,23 +707,15 @@ private:
         }
         offset += data.size();
 
-        uint8_t c;
-        if (JSONCONS_UNLIKELY(source_.read(&c, 1) != 1))
-        {
-            ec = bson_errc::unexpected_eof;
-            more_ = false;
-            return string_view{};
-        }
-        if (JSONCONS_UNLIKELY(c != 0)) // string ::= int32 (byte*) "\x00"
+        if (JSONCONS_UNLIKELY(data[size] != 0)) // string ::= int32 (byte*) "\x00"
         {
             ec = bson_errc::size_mismatch;
             more_ = false;
             return string_view{};
         }
-        ++offset;
 
         state_stack_.back().pos += offset;
-        return string_view{reinterpret_cast<const char*>(data.data()), data.size()};
+        return string_view{reinterpret_cast<const char*>(data.data()), size};
     }
 };
 
